@@ -79,10 +79,18 @@ PARTIAL = ("Names with non-ASCII cased letters are outside the model (Base/Bytes
            "+ jitter), through ANY never-late history of calm iterations (queries without authority records; "
            "registrations of other services, monitor), an iteration at exactly T + 750 ends with the service Announced on "
            "the interface (C07_reaches_announced_partial), with the probe queries in iterations at exactly T, T + 250, "
-           "T + 500 (C07_probe_timetable_partial, C07_calm_iteration_step). STILL NOT proved: the safety form over ALL "
-           "histories outside 42/44/48 ('never speaks for a name that has not completed three probes'), the bound with "
-           "lost tie-breaks / conflicts (+ 1 s each), and 'announceable' at the due time of the second announcement "
-           "derived from the history; these stay with the registry machine plus the executed monitor (codes 32, 36). "
+           "T + 500 (C07_probe_timetable_partial, C07_calm_iteration_step). Round 10: SAFETY on calm histories under ANY "
+           "schedule (late iterations included): before T + 750 the instance-name probe stays in progress, nothing is "
+           "active under that name and the service is not Announced on the interface "
+           "(C07_never_speaks_before_probed_partial), and in such a state every announcement attempt for it sends nothing "
+           "(C07_announcement_attempt_blocked_while_inactive); the announcing iteration leaves the records active "
+           "(C07_announcing_iteration_leaves_records_active_partial), that state is kept by every calm iteration, and the "
+           "queued second announcement is SENT at the first iteration at or after its time "
+           "(C07_second_announcement_sent_calm_partial: the 'announceable' hypothesis discharged for calm histories). "
+           "STILL NOT proved: the safety statement as one theorem about the packets and over ALL histories outside "
+           "42/44/48; the widening of calm iterations to non-conflicting responses and unregister of other services; "
+           "the bound with lost tie-breaks / conflicts (+ 1 s each); these stay with the registry machine plus the "
+           "executed monitor (codes 32, 36). "
            "Timer coverage of this layer: Props/C12Registry.v. "
            "Proved for all operation sequences of the registry machine and for single daemon steps: the other "
            "clauses (see Props/C07.v). NOT proved as a theorem over histories: that chk_C07 accepts every run of the daemon "
